@@ -65,6 +65,18 @@ Theorem sliced_duplicate_indices_refuted :
      /\ mmul (length cs) (den (Sliced e rs cs)) (dat X) 0%nat 0%nat = z 11.
 Proof. exists D33, [0; 1; 2]%nat, [1; 1]%nat, (of_list_mn 2 1 [[z 1]; [z 10]]). repeat split; vm_compute; reflexivity. Qed.
 
+(* `self.T is self` on an operator that is NOT symmetric (a wrongly inferred SelfAdjoint annotation, e.g. on the slice
+   A[::-1, :] of a symmetric A): A[k] and A[k, a:b] return column k; entries, columns and products stay right *)
+Definition tself : flags := mkflags false false false false true.
+Theorem getitem_T_self_refuted :
+  exists (e : zop), wf e = true /\ getitem tself e (One (IInt 0)) = Vec [z 1; z 3]
+     /\ spec_index (den e) (fst (shape e)) (snd (shape e)) (One (IInt 0)) = Some (SVec [z 1; z 2])
+     /\ getitem repaired e (One (IInt 0)) = Vec [z 1; z 2]
+     /\ getitem tself e (Two (IInt 0) (IInt 1)) = Scalar (z 2) /\ getitem tself e (Two (ISlice full) (IInt 1)) = Vec [z 2; z 4].
+Proof. exists D22. repeat split; vm_compute; reflexivity. Qed.
+Theorem sym_ok_example : sym_ok tself (Sum [D22; Transp D22] : zop).
+Proof. right. split; [reflexivity|]. intros [|[|i]] [|[|j]] Hi Hj; try reflexivity; cbn in Hi, Hj; lia. Qed.
+
 (* hypotheses of getitem_den / getitem_total / slices_acts are satisfiable on a composite, non-square tree *)
 Definition Ex : zop := Prod [Kron [D12; Dense (of_list_mn 2 1 [[z 1]; [z 2]])]; Transp (Sum [Dense (of_list_mn 3 2 [[z 1; z 0]; [z 2; z 1]; [z 0; (0%Z, 1%Z)]]); Dense (of_list_mn 3 2 [[z 1; z 1]; [z 1; z 1]; [z 1; z 1]])])].
 Example ex_shape : wf Ex = true /\ shape Ex = (2, 3)%nat.
